@@ -4,7 +4,7 @@ import numpy as np
 from vmon.oracle import geometry as G
 
 CELL_CLASSES = ["ortho", "tri+++", "tri++-", "tri+-+", "tri+--", "tri-++", "tri-+-", "tri--+", "tri---", "tri_minimal", "ortho_minimal",
-                "upper_tri", "general_tri", "rotated_ortho", "left_handed", "ortho_big", "tri_big"]
+                "upper_tri", "general_tri", "rotated_ortho", "left_handed", "ortho_big", "tri_big", "tri_unreduced"]
 POSES = ["random", "identity", "rot90", "rot180", "axis_parallel", "axis_antiparallel", "axis_near_antiparallel", "axis_antiparallel_exact", "identity_exact", "slightly_tilted", "slightly_tilted_exact"]
 
 
@@ -43,6 +43,18 @@ def make_cell(rng, cls, need):
                 cell = low.dot(G.random_rotation(rng).T)
             else:
                 cell = np.diag([a, b, c]).dot(G.random_rotation(rng).T)
+        elif cls == "tri_unreduced":
+            # a strongly tilted cell as a simulation or a transformation leaves it (tilt factors beyond half a cell length, not
+            # reduced): a long first edge, the other two vectors leaning far along it, so that lattice vectors such as b - a or
+            # c - b are much shorter than all three cell edges (which exceed twice the pattern size) - yet every width suffices
+            sg = rng.choice([-1, 1], 3)
+            base = max(need, 2.5)
+            a = base * rng.uniform(2.6, 3.4)
+            b, c = base + rng.uniform(0.45, 2.0, 2)
+            if rng.integers(3) == 0:
+                c = base * rng.uniform(1.5, 3.0)
+            t = rng.uniform(0.55, 0.92, 2)
+            cell = np.array([[a, 0, 0], [sg[0] * t[0] * a, b, 0], [sg[1] * t[1] * a, sg[2] * rng.uniform(0.05, 0.45) * b, c]])
         else:
             if cls in ("tri_minimal", "tri_big"):
                 sg = rng.choice([-1, 1], 3)
